@@ -100,7 +100,11 @@ pub fn evaluate(h: &Hist) -> Vec<CheckEval> {
                     None => (ParamsView::default(), statics.clone()),
                 };
                 let inp = inputs_of(&h.log, &seg, &apps, params, poll);
-                let expect = walk_check(&inp);
+                let mut expect = walk_check(&inp);
+                // a check is only judged against the model when it ran to its result (otherwise the log was cut short)
+                if seg.result_at.is_none() {
+                    expect.complete = false;
+                }
                 // poll after the check: last reading
                 if let Some(last) = expect.poll_trace.last() {
                     match last {
